@@ -644,6 +644,9 @@ func runC08(r *hx.Run) error {
 	}
 	if r.Replay != "" {
 		return hx.ReplayOps(r, func(op []string) (string, bool) {
+			if len(op) > 0 && op[0] == "sched" {
+				return "-", true // an op of the stream C08Sched
+			}
 			k, ok := parseOp(op)
 			if !ok {
 				return "", false
